@@ -61,6 +61,18 @@ CAUGHT = {
  "C04-4": ("C04", "message_differs_from_call_site_formatting", "missed at first; caught after C04 / C11 runs varied BackendOptions::check_printable_char (default, stricter user callback, none)"),
  "C08-3": ("C08", "reported_drop_count_mismatch direction=under_reported", "(same mechanism as C08-1)"),
  "C08-4": ("C08", "crash:Aborted (quill's size assert); also C04", "(same mechanism as C04-1)"),
+ "C15-3": ("C15", "statement_appended_to_the_file_open_before_a_rotation_point, statements_separated_without_a_rotation_point", ""),
+ "C15-4": ("C15", "statement_appended_to_the_file_open_before_a_rotation_point, statements_separated_without_a_rotation_point", ""),
+ "C14-3": ("C14", "file_exceeds_size_limit active_file=1", "(same mechanism as C14-1)"),
+ "C14-4": ("C14", "foreign_file_touched", ""),
+ "C13-3": ("C13", "rendered_time_differs_from_strftime", "(same mechanism as C13-1)"),
+ "C13-4": ("C13", "rendered_time_differs_from_strftime", "missed at first; caught after the pattern generator got the remaining plain strftime conversions (%P %G %g %U %V %W %w %x)"),
+ "C02-3": ("C02", "empty_reported_although_committed_records_are_outstanding (also C03: lost)", "missed by C02 at first (caught by C03 only); caught after the queue-level consumer asked empty() the way the backend does before it stops draining"),
+ "C02-4": ("C02", "allocated_beyond_the_maximum_capacity", "(same mechanism as C02-2)"),
+ "C11-3": ("C11", "queue_grew_for_a_statement_that_fitted (also C09: fitting_statement_dropped_on_empty_queue)", "missed by C11 at first (caught by C09 only): growth of the queue was always excused; caught after statements filling a drained queue exactly were added and growth is excused only when it can have been necessary"),
+ "C11-4": ("C11", "crash:Aborted (quill's ScopedThreadContext assert: the statement after preallocate() creates a second context)", ""),
+ "C01-3": ("C01", "reservation_granted_without_released_space, reservation_larger_than_capacity_granted, data_race_overwrite_of_bytes_still_being_read", "needs 8/16-bit position counters carried through the wrap with unread bytes"),
+ "C01-4": ("C01", "data_race_overwrite_of_bytes_still_being_read", "a pure memory-order weakening (release -> relaxed on the drained-queue publish): invisible on x86"),
  "C07-2": ("C07", "handler_notice_missing, statement_of_signalled_thread_missing, wrong_exit_status", "missed at first; caught after a second delivery of the same signal to another thread was added to C07 programs (and pause() interposed)"),
  "C11-1": ("C11", "steady_state_log_call_allocated typed_site=144/145/146", "missed at first; caught after call sites with more than twelve string values in one statement were added"),
  "C11-2": ("C11", "steady_state_log_call_allocated typed_site=130", ""),
